@@ -2,7 +2,7 @@ use rusty_common::{AtPos, Position, Positioned};
 use rusty_parser::{Assignment, Expression, ExpressionPos, Statement};
 
 use crate::converter::common::{ConvertibleIn, ExprContext};
-use crate::core::{LintErrorPos, LinterContext};
+use crate::core::{LintError, LintErrorPos, LinterContext};
 
 pub fn on_assignment(
     a: Assignment,
@@ -17,6 +17,10 @@ pub fn on_assignment(
         ..
     } = left.at_pos(pos).convert_in(ctx, ExprContext::Assignment)?;
     assignment_post_conversion_validation_rules::validate(&converted_left, &converted_right)?;
+    if let Expression::FunctionCall(_, _) = &converted_left {
+        // A(1) = 42 where A is not an array (implicit arrays are not supported): not something that can be assigned to
+        return Err(LintError::ArrayNotDefined.at_pos(pos));
+    }
     Ok(Statement::assignment(converted_left, converted_right))
 }
 
